@@ -144,6 +144,7 @@ type c12run struct {
 	nCompact             int
 	nConflict            int // compactions whose inputs held >= 2 versions of a key or a deletion marker
 	nRetired             int
+	kinds                map[string]int // executed tasks by selection rule
 	reopenedAfterCompact bool
 }
 
@@ -285,6 +286,41 @@ func (r *c12run) afterCompaction(pre []*c12file, what string) {
 		return
 	}
 	r.nCompact++
+	{
+		// which selection rule produced this task (for the input distribution in the evidence)
+		kind := "range"
+		if !strings.HasPrefix(what, "range") {
+			nl0, minL, maxL := 0, 1<<30, -1
+			for _, f := range ins {
+				if f.level == 0 {
+					nl0++
+				}
+				if f.level < minL {
+					minL = f.level
+				}
+				if f.level > maxL {
+					maxL = f.level
+				}
+			}
+			switch {
+			case nl0 >= 2:
+				kind = "l0"
+			case len(ins) == 1 && len(outs) > 0 && outs[0].level == minL+1:
+				kind = "promotion"
+				for _, f := range rest {
+					if f.level == minL+1 {
+						kind = "ratio"
+					}
+				}
+			default:
+				kind = "ratio"
+			}
+		}
+		if r.kinds == nil {
+			r.kinds = map[string]int{}
+		}
+		r.kinds[kind]++
+	}
 	sort.SliceStable(outs, func(i, j int) bool { return outs[i].name < outs[j].name })
 	// (1) sorted, no duplicates, across the outputs of the task (numbered 1, 2, ...)
 	var prev []byte
@@ -750,8 +786,8 @@ loop:
 	if r.nCompact > 0 && r.nConflict > 0 && r.reopenedAfterCompact {
 		nt = 1
 	}
-	out(fmt.Sprintf("META ops=%d compactions=%d conflicting=%d retired_reopens=%d gets=%d failures=%d nontrivial=%d",
-		len(c.Lines), r.nCompact, r.nConflict, r.nRetired, nGets, len(r.fails), nt))
+	out(fmt.Sprintf("META ops=%d compactions=%d conflicting=%d retired_reopens=%d gets=%d failures=%d task_l0=%d task_promotion=%d task_ratio=%d task_range=%d nontrivial=%d",
+		len(c.Lines), r.nCompact, r.nConflict, r.nRetired, nGets, len(r.fails), r.kinds["l0"], r.kinds["promotion"], r.kinds["ratio"], r.kinds["range"], nt))
 }
 
 // ---- generators ----
@@ -764,6 +800,7 @@ type c12gen struct {
 	small  bool // small memtable: keep the log volume under the recovery budget
 	logged int  // estimated log volume since the last retirement
 	budget int
+	depth  int // range compactions so far: each deepens the tree by at most one level
 }
 
 func (g *c12gen) val() string {
@@ -823,7 +860,11 @@ func (g *c12gen) write(nkeys int) {
 }
 
 func (g *c12gen) compaction(nkeys int) {
-	switch pick(g.r, 6, 3) {
+	rangeW := 3
+	if g.depth >= 7 { // levels stay below 10: file-name order = numeric order (guard of the model)
+		rangeW = 0
+	}
+	switch pick(g.r, 6, rangeW) {
 	case 0:
 		fmt.Fprintf(g.w, "trigger\n")
 	case 1:
@@ -832,6 +873,7 @@ func (g *c12gen) compaction(nkeys int) {
 			a, b = b, a
 		}
 		fmt.Fprintf(g.w, "range %s %s\n", a, b)
+		g.depth++
 	}
 }
 
@@ -866,7 +908,7 @@ func genC12(w *bufio.Writer, seed int64, n int, tier string) {
 			} else {
 				fmt.Fprintf(w, "full\n")
 			}
-			switch pick(r, 4, 5, 2, 2, 1) {
+			switch pick(r, 4, 5, 2, 2, 1, 2, 2, 2) {
 			case 0:
 			case 1:
 				g.compaction(nkeys)
@@ -877,7 +919,44 @@ func genC12(w *bufio.Writer, seed int64, n int, tier string) {
 				fmt.Fprintf(w, "reopen\n")
 			case 4:
 				fmt.Fprintf(w, "get %s\n", g.key(nkeys+1))
+			case 5:
+				// everything two levels down (a gap at the level in between), fresh data on top,
+				// then cycles: promotion into the gap, cascades
+				if g.depth >= 6 {
+					break
+				}
+				g.depth += 2
+				fmt.Fprintf(w, "range 00 ff\nrange 00 ff\n")
+				g.write(nkeys)
+				fmt.Fprintf(w, "full\ntrigger\ntrigger\n")
+			case 6:
+				// a large level-0 file over a small deeper level: the size-ratio rule
+				if !g.small && g.depth < 7 {
+					g.depth++
+					fmt.Fprintf(w, "range 00 ff\n")
+					for j := 0; j < 2; j++ {
+						g.nval++
+						g.logged += 4500
+						fmt.Fprintf(w, "put %s %s\n", g.key(nkeys), fmt.Sprintf("%04x", g.nval)+mkTok(lcgBytes(3000+r.Intn(2000), g.nval)))
+					}
+					fmt.Fprintf(w, "full\ntrigger\n")
+				}
+			case 7:
+				// a delete whose marker meets a compaction that does not know about it: after a restart
+				// (tracker empty) or committed by a transaction (never tracked)
+				k := g.key(nkeys)
+				if r.Intn(2) == 0 {
+					g.logged += 40
+					fmt.Fprintf(w, "del %s\nfull\nreopen\n", k)
+				} else {
+					g.logged += 40
+					fmt.Fprintf(w, "commit 1\nd %s\nfull\n", k)
+				}
+				g.compaction(nkeys)
 			}
+		}
+		if ci%40 == 7 { // the background worker's own cycles (slow: seconds per case)
+			fmt.Fprintf(w, "auto\n")
 		}
 		if r.Intn(3) != 0 {
 			g.compaction(nkeys)
